@@ -235,8 +235,21 @@ def finish(prop, tier, level, results, skipped, t0, extra_cov=None, assumptions=
     replays_validated = 0
     seen_known = set()
     reported = []
-    for r in ok:
-        for v in r['violations']:
+    import shutil
+    shutil.rmtree(os.path.join(V, 'replays', prop), ignore_errors=True)
+    sig_seen = {}
+    total_viol = sum(len(r['violations']) for r in ok)
+    # cheapest counterexamples first (fewest deviations, shortest schedule)
+    cand = sorted(((v['usedP'] + v['usedE'], len(v['schedule']), i, j) for i, r in enumerate(ok) for j, v in enumerate(r['violations'])))
+    for _, _, i, j in cand:
+        r = ok[i]; v = r['violations'][j]
+        if True:
+            nsmc_ = build(r['job'].cfg, r['job'].defs, r['job'].tag)
+            presig = violation_signature(nsmc_, v)
+            key = (r['family'], presig['kind'][:60], presig['func'], presig['caller'])
+            sig_seen[key] = sig_seen.get(key, 0) + 1
+            if sig_seen[key] > 2 or nviol >= 40:
+                continue            # same kind of violation at the same site: two replays are enough
             nviol += 1
             path, deterministic, sig, trace = confirm_and_write_replay(prop, r, v, nviol)
             replays_validated += 1
@@ -280,6 +293,7 @@ def finish(prop, tier, level, results, skipped, t0, extra_cov=None, assumptions=
         'distinct_sync_call_sites_exercised': {k: len(v) for k, v in sites.items()},
         'budgets': sorted({'%s threads=%d P=%s E=%d%s' % (r['config'], r['threads'], 'unbounded' if r['P'] >= 99 else r['P'], r['E'], ' stateless+hb' if r['hb'] else '') for r in ok}),
         'exhaustive': exhaustive,
+        'violating_schedules_found': total_viol,
         'explanation': technique_note,
     }
     if extra_cov:
@@ -295,6 +309,10 @@ def finish(prop, tier, level, results, skipped, t0, extra_cov=None, assumptions=
     print('%s %s: %d programs, %d executions, %d states, %d transitions, %d distinct outcomes, exhaustive=%s, %.1fs%s' % (
         prop, tier, len(ok), execs, states, trans, len(outcomes), exhaustive, time.time() - t0,
         '' if not skipped and not capped else ' (%d skipped, %d capped by the time limit)' % (len(skipped), len(capped))))
+    if os.environ.get('VERIF_PROFILE'):
+        for r in sorted(ok, key=lambda r: -r['wall'])[:25]:
+            print('   %7.1fs %9d states  %s/%s "%s" P=%d E=%d%s' % (r['wall'], r['states'], r['config'], r['family'], r['program'], r['P'], r['E'], '' if r['complete'] else ' CAPPED'))
+        print('   total cpu %.0fs' % sum(r['wall'] for r in ok))
     if exit_code == 0 and errors:
         return 2
     return exit_code
